@@ -10,7 +10,8 @@ St == INSTANCE Staged WITH DurSet <- {0}, TargetSet <- {0}, MaxStages <- 1, MaxT
 StagesOf(x) == IF x.kind = "staged" THEN [k \in 1..Len(x.stages) |-> [d |-> x.stages[k][1], e |-> x.stages[k][2]]]
                ELSE <<[d |-> x.D, e |-> x.E]>>
 \* reported total duration = sum of the stage durations (ramp: the ramp duration)
-HeaderOK(x) == x.panicked = FALSE /\ x.dur = St!Total(StagesOf(x))
+\* (dur = -2: observed through the command line, where the total is not visible)
+HeaderOK(x) == x.panicked = FALSE /\ (x.dur = -2 \/ x.dur = St!Total(StagesOf(x)))
 
 Init == /\ tr \in 1..Len(T) /\ i = 0 /\ ok = HeaderOK(T[tr])
         /\ stages = StagesOf(T[tr]) /\ cur = 1 /\ t = 0 /\ last = St!NONE /\ lastStage = 0
